@@ -137,7 +137,7 @@ class SymExec:
             elif p[0] == "index":
                 t = ("index", t, env.get(p[1], ("?", f"_{p[1]}")))
             else:
-                t = ("proj", t, p[0])
+                t = ("proj", t, p[0]) if len(p) < 2 else ("proj", t, p[0], p[1])      # constant index kept: [a, b] elements stay distinct
         return t
 
     def proj_field(self, t, idx):
@@ -358,6 +358,8 @@ class SymExec:
                         continue
                     if div or t["target"] is None:
                         s2.env["__diverged__"] = bb
+                        if len(alt) > 4 and alt[4]:
+                            s2.env["__cut__"] = bb          # the inlined callee was cut inside a loop (not a panic)
                         out.append(s2)
                         npaths += 1
                     else:
@@ -423,11 +425,29 @@ class SymExec:
 
     def default_call(self, cal, args, site, transparent, t):
         """[(extra conds, value term, diverged)] for a call."""
+        if cal in ("std::ops::Fn::call", "std::ops::FnMut::call_mut", "std::ops::FnOnce::call_once", "core::ops::Fn::call", "core::ops::FnMut::call_mut", "core::ops::FnOnce::call_once") and args:
+            # a closure value called through the Fn* traits (a closure received as a parameter): the closure's body
+            f0 = strip_transparent(args[0])
+            if isinstance(f0, tuple) and f0[0] == "closure" and f0[1] in self.prog.bodies and self.inline and self.inline(f0[1]):
+                cal = f0[1]
+                args = (f0,) + tuple(args[1:])
         # intrinsics / trivial std
         if cal.endswith("intrinsics::discriminant_value") and args:
             d = ("discr", args[0])
             kd = self.known_discr(d)
             return [((), ("c", "isize", kd) if kd is not None else d, False)]
+        if cal.startswith(("std::char::methods::", "core::char::methods::")) and args:
+            # ASCII class predicates on a constant character
+            a0 = strip_transparent(args[0])
+            if isinstance(a0, tuple) and a0[0] == "c" and isinstance(a0[2], int):
+                ch = chr(a0[2]) if 0 <= a0[2] < 0x110000 else None
+                nm = cal.rsplit("::", 1)[-1]
+                f = {"is_ascii_digit": lambda c: c.isascii() and c.isdigit(), "is_ascii_hexdigit": lambda c: c in "0123456789abcdefABCDEF",
+                     "is_ascii_alphabetic": lambda c: c.isascii() and c.isalpha(), "is_ascii_alphanumeric": lambda c: c.isascii() and c.isalnum(),
+                     "is_ascii_lowercase": lambda c: c.isascii() and c.islower(), "is_ascii_uppercase": lambda c: c.isascii() and c.isupper(),
+                     "is_ascii_whitespace": lambda c: c in " \t\n\x0c\r", "is_ascii": lambda c: c.isascii()}.get(nm)
+                if f and ch is not None:
+                    return [((), ("c", "bool", 1 if f(ch) else 0), False)]
         if cal.endswith(" as std::ops::Try>::branch") and args:
             # `x?` on a value whose variant is known: Continue(payload) / Break(residual); a symbolic value stays opaque
             a0 = strip_transparent(args[0])
@@ -457,7 +477,7 @@ class SymExec:
             alts = []
             for p in sub.paths(env):
                 div = "__diverged__" in p.env or "__cut__" in p.env
-                alts.append((p.conds, p.env.get(0, ("?", "ret")), div, p.calls))
+                alts.append((p.conds, p.env.get(0, ("?", "ret")), div, p.calls, "__cut__" in p.env))
             if sub.truncated:
                 self.truncated = True
             return alts
